@@ -19,6 +19,7 @@
 (*                       so no record is ever produced                                            *)
 (*           "split_ge"  seeded deviation: splits at gaps >= max_N_span and forgets the gap       *)
 (*           "umi_max"   seeded deviation: the molecule's UMI is the largest one seen, not the most common *)
+(*           "maxn_falsy" seeded deviation: `if max_N_span and ...` - max_N_span = 0 behaves like None         *)
 (*           "site_leftmost"  seeded deviation: the molecule keeps the left-most cut also on the reverse strand *)
 (*           "tf_no_overflow"  seeded deviation: the record's TF tag leaves out the fragments    *)
 (*                       refused because of max_associated_fragments (the source reads count them)*)
@@ -89,19 +90,24 @@ EqualQ(bag) == \A i, j \in DOMAIN bag : bag[i][2] = bag[j][2]
    likelihoods 1 - e are equal, the two best are tied (or N is ahead of both) -> N for EVERY quality; different qualities
    q1 > q2 >= 4 -> 1 - e1 > 1 - e2 and, because q1 >= 5 gives e1 < 0.317 and q2 >= 4 gives e2 < 0.399, also
    1 - e1 > 0.68 > 4 * e1 * e2 (the N hypothesis) -> the base with the higher quality, up to phred 93.          *)
+(* (v) phred 0 is an error probability of exactly 1 (rational, no real arithmetic): the likelihood of a base that has a
+   phred-0 observation is exactly 0, that of the N hypothesis, a product of e_i > 0, is positive.  If the ONLY observed
+   base has such an observation nothing observed can be called: N.                                                     *)
+HasZero(bag) == \E i \in DOMAIN bag : bag[i][2] = 0
 AllLow(bag)  == \A i \in DOMAIN bag : bag[i][2] <= 3
 AllHigh(bag) == \A i \in DOMAIN bag : bag[i][2] >= 4
 OneBase(bag) == Cardinality(BasesIn(bag)) = 1
 Decidable(bag0) == LET bag == Informative(bag0) IN
     \/ bag = <<>>
     \/ AllLow(bag)
+    \/ (OneBase(bag) /\ HasZero(bag))
     \/ (OneBase(bag) /\ AllHigh(bag))
     \/ (EqualQ(bag) /\ bag[1][2] >= 10)
     \/ (Len(bag) = 2 /\ (EqualQ(bag) \/ AllHigh(bag)))
 CallP(bag0) == LET bag == Informative(bag0) IN
     IF bag = <<>> THEN "N"
     ELSE IF AllLow(bag) THEN "N"
-    ELSE IF OneBase(bag) THEN bag[1][1]
+    ELSE IF OneBase(bag) THEN (IF HasZero(bag) THEN "N" ELSE bag[1][1])
     ELSE IF EqualQ(bag) THEN
         LET W == { b \in BasesIn(bag) : \A o \in BasesIn(bag) \ {b} : Count(bag, b) > Count(bag, o) }
         IN IF W = {} THEN "N" ELSE CHOOSE b \in W : TRUE
@@ -133,6 +139,11 @@ Inv_Blocks(recs, conf) ==
         tot == LET g(s) == Len(s) IN SumSeqF(all, g)
     IN /\ UNION { SeqSet(all[i]) : i \in DOMAIN all } = Covered(conf)
        /\ tot = Cardinality(Covered(conf))                     \* no position twice
+(* the contract of the max_N_span argument ("never bridge a gap longer than this"; the statement's quantifier names
+   "large gaps beyond max_N_span"): no record spans an N operation longer than max_N_span (-1 = None: no limit).
+   That shorter gaps are NOT cut is design-level only (Inv_D_Split). *)
+GapsIn(rec) == { rec.cigar[i].n : i \in { j \in DOMAIN rec.cigar : rec.cigar[j].op = "N" } }
+Inv_MaxNSpan(recs, k) == k < 0 \/ \A i \in DOMAIN recs : \A g \in GapsIn(recs[i]) : g <= k
 Inv_MD(recs, refAt(_)) == \A i \in DOMAIN recs : MDMatches(recs[i], refAt)
 Inv_Call(recs, conf) ==
     \A i \in DOMAIN recs :
@@ -269,7 +280,8 @@ StepOp ==
     /\ pc = "walk" /\ ix <= Len(cigar)
     /\ LET o == cigar[ix] IN
        IF o.op = "N" THEN
-           /\ IF maxN >= 0 /\ (IF Variant = "split_ge" THEN o.n >= maxN ELSE o.n > maxN)
+           /\ IF (IF Variant = "maxn_falsy" THEN maxN > 0 ELSE maxN >= 0)        \* `is not None`; the deviation tests truthiness: 0 acts like None
+                 /\ (IF Variant = "split_ge" THEN o.n >= maxN ELSE o.n > maxN)
               THEN /\ recs' = Append(recs, Record(refstart, refend, pCigar, pSeq))          \* yield, then clear
                    /\ pCigar' = <<>> /\ pSeq' = <<>>
               ELSE /\ pCigar' = Append(pCigar, o) /\ UNCHANGED <<recs, pSeq>>
@@ -303,10 +315,10 @@ Inv_C15_Blocks == Done => Inv_Blocks(recs, conf)
 Inv_C15_Lens   == Done => Inv_Lens(recs)
 Inv_C15_MD     == Done => Inv_MD(recs, RefAt)
 Inv_C15_Call   == Done => Inv_Call(recs, conf)
+Inv_C15_MaxNSpan == Done => Inv_MaxNSpan(recs, maxN)
 Inv_C15_Tags   == Done => (Inv_Tags(recs, MolTags, umis, sites, strand) /\ \A i \in DOMAIN recs : recs[i].rev = strand)
 
 (* design-level only (not part of the statement): records are cut exactly at gaps longer than max_N_span *)
-GapsIn(rec) == { rec.cigar[i].n : i \in { j \in DOMAIN rec.cigar : rec.cigar[j].op = "N" } }
 Inv_D_Split == Done => /\ \A i \in DOMAIN recs : \A g \in GapsIn(recs[i]) : maxN < 0 \/ g <= maxN
                        /\ \A i \in 1 .. (Len(recs) - 1) :
                             LET a == RecPositions(recs[i]) b == RecPositions(recs[i + 1])
